@@ -14,21 +14,39 @@ from fractions import Fraction
 
 import numpy as np
 
+import c08axis
 import core
 import py2coq
 import rcorr
+import solvercorr as sc
+import solverslices
 
-THEOREMS = ["C08_speed", "C08_speed_norm", "C08_cardinals", "C08_upwind_vector", "C08_periodic", "C08_upwind_bearing"]
+THEOREMS_WIND = ["C08_speed", "C08_speed_norm", "C08_cardinals", "C08_upwind_vector", "C08_periodic", "C08_upwind_bearing"]
+# Properties/C08Axis.v: the part of the centroid clause that is a theorem (cardinal winds): over abstract Ops (no axioms) ...
+THEOREMS_AXIS = ["C08_axis_symmetric_footprint", "C08_axis_symmetric_footprint_defect", "C08_axis_symmetric_footprint_odd",
+                 "C08_axis_symmetric_footprint_full", "C08_centroid_on_wind_axis_partial", "C08_centroid_on_wind_axis_noNyq_partial",
+                 "C08_axis_symmetric_footprint_x", "C08_axis_symmetric_footprint_x_defect", "C08_axis_symmetric_footprint_x_odd",
+                 "C08_axis_symmetric_footprint_x_full", "C08_centroid_on_wind_axis_x_partial", "C08_centroid_on_wind_axis_x_noNyq_partial",
+                 "C08_axis_nonvacuous", "C08_axis_example_applied",
+                 "C08_centroid_on_wind_axis_any_tower_partial", "C08_centroid_on_wind_axis_any_tower_noNyq_partial",
+                 "C08_centroid_on_wind_axis_any_tower_x_partial", "C08_centroid_on_wind_axis_any_tower_x_noNyq_partial",
+                 "C08_axis_half_cell_nonvacuous"]
+# ... and their connection to compute_wind_fields / the profiles, over R and the complex instance ROps (stdlib real axioms)
+THEOREMS_AXIS_R = ["C08_cardinal_no_crosswind", "C08_cardinal_request", "C08_centroid_cardinal_east_west_partial",
+                   "C08_centroid_cardinal_north_south_partial", "C08_cardinal_nonvacuous"]
+THEOREMS = THEOREMS_WIND + THEOREMS_AXIS + THEOREMS_AXIS_R
 TRUSTED = [
     "Model/Wind.v is hand-written over Coq's R; tied to utils.compute_wind_fields by two bridge lemmas against the formulas re-extracted from the current source (SSA expansion of the re-assigned parameter) and by interval-certified evaluation at the exact rational value of every float input",
     "np.deg2rad = x*pi/180, np.sin/np.cos = sin/cos (numpy/libm not modelled; their rounding is inside the 1e-12*max(1,U) tolerance)",
     "the plumbing observation wraps compute_wind_fields, vertical_profiles and steady_state_transport_solver in bldfm.interface's namespace",
-    "the centroid-bearing clause is NOT a theorem: it is exercised by the end-to-end oracle (thorough tier sweep and whenever an obligation or the correspondence breaks) and by an 8-direction smoke run in every check",
+    "the centroid-bearing clause is a theorem only for the four cardinal directions and only as 'the centre of mass over a window centred on the tower lies on the wind axis' (Properties/C08Axis.v, theorems about Model/Solver.v); which side (upwind), oblique directions and the tolerance 'a few degrees' are NOT theorems: they are exercised by the end-to-end oracle (thorough tier sweep and whenever an obligation or the correspondence breaks) and by the smoke run in every check",
+    "Properties/C08Axis.v speaks about Model/Solver.v: tied to bldfm/solver.py in this check by the solver slice bridge (Bridge/SolverBridge.v, PlumbBridge.v, statement skeleton), by a float correspondence of the model on footprint requests with a wind along a grid axis, and by the axis observable (harness/c08axis.py) measured on the public API",
 ]
 ASSUMPTIONS = [
     "theorems are in exact real arithmetic; orientation of the (x east, y north) frame is C17_orientation; the solver's own orientation is the subject of C02/C06/C07",
     "'a few degrees' = 5 deg; 'resolved domain' = tower at the domain centre (via lat/lon and the reference), 2*max(dx,dy) <= footprint peak distance <= min(xmax,ymax)/20 (measured first, domain sized in units of it), modes = all modes of the padded grid, halo = 2*max(xmax,ymax) for every closure (measured worst error 0.75 deg) and additionally the solver's default halo for MOST/MOSTM (measured worst 2.7 deg); the CONSTANT closure with the default halo is NOT counted as resolved: its x^(-3/2) tail re-enters through the periodic images and moves the centroid by up to 5.7 deg on oblong domains, and a truncated spectrum (modes = grid size) low-pass filters anisotropically (up to 9 deg) - both are domain/resolution effects, not direction-convention effects",
     "correspondence tolerance 1e-12*max(1,|U|): deg2rad and sin/cos round to <= 2 ulp at |wind_dir| <= 720 deg",
+    "axis theorems: exact arithmetic under Laws O (field laws standing for IEEE doubles); footprint mode; v = 0 (u = 0) at every node - in binary64 compute_wind_fields(U, 90) has v = -U*6.1e-17, not 0; tower on a grid line for the centroid statements; returned array exact for an odd retained count or the full spectrum, otherwise without the unpaired retained frequency; every halo. Axis observable: tolerance 1e-9 of max|F| / of r*sum|F| (double; measured <= 3e-11 on the unchanged tree) and 1e-4 (single storage); direct solver requests in the bounded-growth regime (shooting growth exponent <= 2.5: cells enlarged until it holds; measured worst over 2400 generated cases 2e-11, with 3.5 it was 4.6e-10), because on under-resolved grids (cells smaller than the measurement height) the shooting method amplifies the 1e-16 cross-wind component up to 1e-7; through run_bldfm_single on the resolved end-to-end configurations (measured <= 2.1e-11 on all 102 configurations of the thorough sweep, dominated by the tower being 1.5e-12 cells off its grid line after the lat/lon round trip)",
 ]
 
 UTILS = lambda: os.path.join(core.SRC, "bldfm", "utils.py")
@@ -330,8 +348,29 @@ def e2e_run(cp, itf, geo, P, wd, xmax, ymax):
     cx, cy = (f * X).sum() / m - t.x, (f * Y).sum() / m - t.y
     pk = np.unravel_index(np.argmax(f), f.shape)
     brg = math.degrees(math.atan2(cx, cy)) % 360.0
-    return {"bearing": brg, "err": (brg - wd + 180.0) % 360.0 - 180.0, "peak": math.hypot(X[pk] - t.x, Y[pk] - t.y),
+    return {"axis": axis_moment(f, wd, t.x, t.y, xmax, ymax), "bearing": brg, "err": (brg - wd + 180.0) % 360.0 - 180.0, "peak": math.hypot(X[pk] - t.x, Y[pk] - t.y),
             "cdist": math.hypot(cx, cy), "tower_xy": (t.x, t.y), "centre_off": math.hypot(t.x - xmax / 2, t.y - ymax / 2)}
+
+
+def axis_moment(f, wd, tx, ty, xmax, ymax):
+    """cardinal wind directions with the tower on a grid line (to 2e-11 cells; through lat/lon the tower of the
+    end-to-end configurations is 1.5e-12 cells off its line, which is what the measured moments of 1e-14 .. 2e-11 on
+    the 102 resolved configurations of the thorough sweep consist of): first moment of the footprint ACROSS the
+    wind about the tower over the largest window of whole rows/columns centred on the tower, relative to r*sum|F|
+    (C08_centroid_on_wind_axis_partial: exactly 0 when all modes of the padded grid are retained).  None otherwise."""
+    if float(wd) % 90.0 != 0.0:
+        return None
+    rows = float(wd) % 180.0 == 90.0
+    A = f if rows else f.T
+    n = A.shape[0]
+    pos = (ty / (ymax / n)) if rows else (tx / (xmax / n))
+    jm = int(round(pos))
+    r = min(jm, n - 1 - jm)
+    if abs(pos - jm) > 2e-11 or r < 1:
+        return None
+    d = np.arange(-r, r + 1)
+    W = A[jm - r: jm + r + 1, :]
+    return float(abs((d[:, None] * W).sum()) / (r * np.abs(W).sum()))
 
 
 def resolve_domain(cp, itf, geo, P):
@@ -390,6 +429,8 @@ def sweep_one(cp, itf, geo, P, dirs):
         if r is None:
             return "skipped", []
         recs.append((float(wd), r["bearing"], r["err"], xmax, ymax, peak))
+        if r.get("axis") is not None:
+            P.setdefault("_axis", []).append((float(wd), r["axis"]))
     return "resolved", recs
 
 
@@ -400,7 +441,9 @@ def smoke(ctx, cp, itf, geo):
     plan = [("MOST", "square", [0.0, 90.0, 180.0, 270.0, 30.0, 135.0, 200.0, 310.0]),
             ("OAAHOC", "square", [0.0, 120.0, 250.0]), ("MOSTM", "oblong-y-anisotropic-cells", [60.0, 200.0]),
             ("CONSTANT", "oblong-x", [120.0, 315.0]), ("MOST:cached", "square", [30.0, 200.0])]
+    plan.append(("MOSTM:axis", "oblong-y-anisotropic-cells", [90.0, 180.0]))
     n, worst = 0, None
+    ctx.cov["axis_e2e"] = {"runs": 0, "worst": 0.0, "tolerance": c08axis.TOL["double"]}
     for closure, grid, dirs in plan:
         P = dict(base, closure=closure.split(":")[0], grid=grid)
         if closure.endswith(":cached"):
@@ -414,18 +457,61 @@ def smoke(ctx, cp, itf, geo):
             if closure == "MOST":
                 ctx.fail("correspondence", "C08:e2e-smoke-unresolved", "the smoke configuration could not be resolved", hint={"e2e": P})
             continue
+        axis_recs = P.pop("_axis", [])
         n += len(recs)
         w = max(abs(r[2]) for r in recs)
         worst = w if worst is None else max(worst, w)
+        for wd, mom in axis_recs:
+            ctx.cov["axis_e2e"]["runs"] += 1
+            ctx.cov["axis_e2e"]["worst"] = max(ctx.cov["axis_e2e"]["worst"], mom)
+            if not mom <= c08axis.TOL["double"]:
+                ctx.fail("correspondence", "C08:e2e-axis-%s-wd%g" % (closure, wd),
+                         "through run_bldfm_single, wind_dir %g, tower on a grid line, all modes of the padded grid: the footprint's first moment across the wind about the tower is %.3g of r*sum|F| (theorem C08_centroid_on_wind_axis_partial: 0; tolerance %g) (closure %s)" % (wd, mom, c08axis.TOL["double"], closure),
+                         hint={"e2e": dict(P)})
         for wd, b, err, xmax, ymax, peak in recs:
             if abs(err) > BEARING_TOL:
                 ctx.fail("correspondence", "C08:e2e-smoke-%s-wd%g" % (closure, wd), "footprint centroid bearing %.2f deg for wind_dir %.1f (closure %s)" % (b, wd, closure), hint={"e2e": P})
     return n, worst
 
 
+def gen_axis_model_cases(ctx):
+    """footprint requests with a wind along a grid axis and the tower on a grid line, for the float correspondence of
+    Model/Solver.v (the model the axis theorems are about): halo none / default / unequal pads, full / truncated / odd
+    spectra, both storage precisions"""
+    rng = ctx.rng
+    out = []
+    for k in range(12 if ctx.thorough else 5):
+        nx, ny = rng.choice([4, 5, 6]), rng.choice([3, 4, 6])
+        dx, dy = rng.choice([1.5, 2.0]), rng.choice([1.25, 3.0])
+        U = rng.choice([0.5, 1.0, 3.0]) * rng.choice([1, -1])
+        wind = (U, 0.0) if k % 2 == 0 else (0.0, U)
+        halo = [0.0, 2.2 * max(dx, dy), None, 0.7 * dy + 0.01][k % 4]
+        if halo is None and max(nx, ny) > 4:
+            halo = 1.3 * dx
+        out.append(sc.mk_case(rng, nx=nx, ny=ny, domain=(nx * dx, ny * dy), footprint=True, analytic=False, wind=wind,
+                              kind=rng.choice(["vary", "const"]), halo=halo, meas=(dx * rng.randrange(nx), dy * rng.randrange(ny)),
+                              modes=rng.choice([(64, 64), (4, 4), (2, 4), (8, 8)]), precision="single" if k % 5 == 4 else "double"))
+    return out
+
+
+def check_axis(ctx):
+    """the tie of Properties/C08Axis.v (theorems about Model/Solver.v) to the current source"""
+    core.check_properties_file(ctx, "Properties/C08Axis.v", THEOREMS_AXIS, core.AX_NONE)
+    # coqchk is not run on this file: it imports the Interval/Coquelicot-based profile proofs (PblProofs), on which the
+    # independent checker does not finish in 20 minutes (as for Properties/C19Num.v); Print Assumptions is compared as usual
+    core.check_properties_file(ctx, "Properties/C08AxisWind.v", THEOREMS_AXIS_R, core.AX_REALS, coqchk=False)
+    solverslices.run(ctx)
+    cases = gen_axis_model_cases(ctx)
+    recs = sc.correspond(ctx, cases, "c08ax_")
+    devs = [r["dev"] for r in recs if r.get("dev") is not None]
+    obs = c08axis.observe(ctx)
+    return {"model_cases": len(cases), "model_mismatches": sum(1 for r in recs if not r["ok"]), "model_max_rel_dev": max(devs) if devs else None, "obs": obs}
+
+
 def check(ctx):
-    core.check_properties_file(ctx, "Properties/C08.v", THEOREMS, core.AX_REALS)
+    core.check_properties_file(ctx, "Properties/C08.v", THEOREMS_WIND, core.AX_REALS)
     run_slices(ctx)
+    axis = check_axis(ctx)
     ut = _wind_only()
     goals, info, hist, failing, n_scal, n_arr = wind_correspondence(ctx, ut)
     cp, itf, ut, geo = _impl()
@@ -445,13 +531,19 @@ def check(ctx):
     hist["plumbing:with-reference"] = sum(1 for c in plumb if c["has_ref"])
     hist["plumbing:timeseries"] = sum(1 for c in plumb if isinstance(c["raw"]["met"]["wind_speed"], list))
     hist["e2e-smoke"] = n_smoke
+    hist["axis-model-correspondence"] = axis["model_cases"]
+    hist.update(axis["obs"]["histogram"])
+    ctx.cov["axis"] = {"model_correspondence_cases": axis["model_cases"], "model_max_rel_dev": axis["model_max_rel_dev"],
+                       "observable_cases": axis["obs"]["cases"], "observable_worst": axis["obs"]["worst"], "observable_tolerance": c08axis.TOL,
+                       "growth_bound": c08axis.GROWTH_BOUND, "sample": axis["obs"]["sample"],
+                       "rule": "axis observable on the public API (compute_wind_fields -> vertical_profiles -> solver, footprint): mirror symmetry of the footprint about the tower's grid line and zero first moment across the wind, cases from the case splits of the proofs (halo none/default/unequal pads, odd/even padded size, full/truncated spectrum, tower on a line or half way, all closures, both precisions); float correspondence of Model/Solver.v on axis requests; the same moment through run_bldfm_single in the smoke run"}
     ctx.cov.update({
-        "evaluations": len(goals) + len(plumb) + n_smoke,
-        "distinct_nontrivial": sum(1 for cid, _ in goals if info[cid]["U"] != 0) + sum(1 for c in plumb if c["has_ref"]) + n_smoke,
+        "evaluations": len(goals) + len(plumb) + n_smoke + axis["model_cases"] + axis["obs"]["evaluated"],
+        "distinct_nontrivial": sum(1 for cid, _ in goals if info[cid]["U"] != 0) + sum(1 for c in plumb if c["has_ref"]) + n_smoke + axis["obs"]["evaluated"],
         "rule": "interval-certified goals for u and v: %d scalar (speed, direction) pairs on a %s-degree lattice incl. the cardinals, 360/450/720.5/-90/-0.0, random oblique directions, int inputs, zero and negative speed; %d array calls (direction array with scalar or array speed), element by element; %d exact plumbing observations (scalar/list met fields, met_index, z0/ustar branch, 1-3 towers, with/without reference, three closures) comparing bit patterns of what run_bldfm_single passes on; %d end-to-end smoke directions (worst bearing error %s deg); non-trivial = non-zero speed / tower off the origin" % (n_scal, "2.5" if ctx.thorough else "7.5", n_arr, len(plumb), n_smoke, "%.2f" % worst if worst is not None else "n/a"),
         "samples": [info[cid] for cid, _ in goals[:: max(1, len(goals) // 5)]][:5] + [{"plumb": plumb[0]}],
         "histogram": hist,
-        "correspondence_mismatches": len(failing) + n_pl_bad,
+        "correspondence_mismatches": len(failing) + n_pl_bad + axis["model_mismatches"] + axis["obs"]["violations"],
         "interval_goals": len(goals),
     })
 
@@ -609,6 +701,24 @@ def oracle(ctx, hints):
             if bad:
                 note("plumbing:interface-feeds-something-else", "; ".join(bad), {"probe": "plumb", "case": h["plumb"]})
 
+    # 1b. the axis observable: cardinal winds, footprint symmetric about the tower's grid line, centroid on the wind axis
+    try:
+        api = c08axis.impl()
+        ax_cases = [h["axis"] for h in hints if h and "axis" in h] + c08axis.gen(ctx)
+        ax_n = 0
+        for c in ax_cases:
+            try:
+                bad, res, g = c08axis.probe(api, c)
+                ax_n += 1
+            except Exception as e:
+                note("axis:raises:" + type(e).__name__, "the axis observable raised %r" % e, {"probe": "axis", "case": c})
+                continue
+            for sig, what in bad:
+                note(sig, what, {"probe": "axis", "case": c})
+        ctx.cov["oracle_axis_cases"] = ax_n
+    except Exception as e:
+        note("axis:raises:" + type(e).__name__, "the axis observable could not run: %r" % e, {"probe": "axis", "case": None})
+
     # 2. end to end: bearing tower -> footprint centroid
     step = 5 if ctx.thorough else 15
     dirs = [float(d) for d in range(0, 360, step)]
@@ -626,6 +736,13 @@ def oracle(ctx, hints):
             stats["skipped_unresolved"] += 1
             continue
         stats["runs"] += len(recs)
+        for wd_, mom in P.pop("_axis", []):
+            stats["axis_runs"] = stats.get("axis_runs", 0) + 1
+            stats["axis_worst"] = max(stats.get("axis_worst", 0.0), mom)
+            if not mom <= c08axis.TOL["double"]:
+                xm_, ym_ = [(r[3], r[4]) for r in recs if r[0] == wd_][0]
+                note("axis:centroid-off-the-wind-axis", "through run_bldfm_single, wind_dir %g, tower on a grid line: the footprint's first moment across the wind about the tower is %.3g of r*sum|F| (tolerance %g) on %r" % (wd_, mom, c08axis.TOL["double"], P),
+                     {"probe": "e2e", "P": dict(P), "wd": wd_, "xmax": xm_, "ymax": ym_})
         w = max(abs(r[2]) for r in recs)
         key = P["closure"] + (":halo-2x" if P.get("halo_mult") else ":default-halo")
         stats["worst_by_closure_and_halo"][key] = max(stats["worst_by_closure_and_halo"].get(key, 0.0), w)
@@ -662,6 +779,11 @@ def replay(body):
         res = probe_interface_wind(cp, itf, ut, body["U"], body["wd"])
     elif kind == "plumb":
         res = [("plumbing:interface-feeds-something-else", b) for b in plumb_one(cp, itf, ut, body["case"])]
+    elif kind == "axis":
+        api = c08axis.impl()
+        bad, r, g = c08axis.probe(api, body["case"])
+        print("wind_dir %g, %s, padded grid %dx%d, retained %dx%d, growth exponent %.2f: %r" % (body["case"]["wd"], body["case"]["closure"], g["nxe"], g["nye"], g["nlx"], g["nly"], g["growth"], r))
+        res = bad
     elif kind == "e2e":
         P = dict(body["P"])
         if "xmax" in body:
@@ -677,6 +799,10 @@ def replay(body):
         print("wind_dir %.2f deg: bearing tower -> footprint centroid %.3f deg (difference %.3f deg, peak distance %.1f m)" % (body["wd"], r["bearing"], r["err"], r["peak"]))
         if abs(r["err"]) > BEARING_TOL:
             res = [(classify([(body["wd"], r["bearing"])]), "bearing differs by %.2f deg" % r["err"])]
+        if r.get("axis") is not None:
+            print("first moment across the wind about the tower: %.3g of r*sum|F|" % r["axis"])
+            if not r["axis"] <= c08axis.TOL["double"]:
+                res.append(("axis:centroid-off-the-wind-axis", "first moment across the wind %.3g" % r["axis"]))
     for sig, what in res:
         print("FAILS", sig, what)
     if not res:
